@@ -193,6 +193,53 @@ def _update(U):
     U.external("np.linalg.inv: any square matrix (only its shape matters for the structure)")
 
 
+@unit("C24", "Kpoint_and_neighbours.update with a damped gauge (mix_ratio_u != 1): the stored matrix is again a polar factor", scope="shape:as above; eigenvectors of the change matrix arbitrary (np.linalg.eig guarantees no orthogonality inside a degenerate eigenvalue)", expect_min=2)
+def _update_damped(U):
+    eig_calls, orth_calls, eigs = [], [], []
+
+    def get_max_eig(matrix, nvec, nBfree):
+        V = sym_cplx_array("V%d" % len(eig_calls), (nBfree, nvec))
+        eig_calls.append((matrix, nvec, nBfree, V))
+        return V
+
+    def orthogonalize(A):
+        T = sym_cplx_array("T%d" % len(orth_calls), (A.shape[1], A.shape[1]))
+        orth_calls.append((A, T))
+        return A.dot(T)
+
+    def eig(M):
+        vals = rnp.exp(1j * rnp.array([0.3, -1.1, 0.3]))              # unit modulus, one value twice: the eigenvectors of that pair need not be orthogonal
+        vecs = sym_cplx_array("EV", (M.shape[0], M.shape[0]))
+        eigs.append((M, vals, vecs))
+        return vals, vecs
+    NP = Shim(overrides={"linalg.inv": lambda M: sym_cplx_array("inv%d" % id(M), M.shape), "linalg.eig": eig})
+    from copy import deepcopy
+    KN = U.klass(F_KN, "Kpoint_and_neighbours", globs=dict(np=NP, get_max_eig=get_max_eig, orthogonalize=orthogonalize, deepcopy=deepcopy), rewrite_comps=False)
+
+    def body():
+        kp, Mmn, amn = _build(KN)
+        Unb = [sym_cplx_array("Unb%d" % ib, (NB, NW)) for ib in range(NNB)]
+        phase = sym_cplx_array("ph", (NW, NNB))
+        kp.update_Mmn_opt = lambda wcc_bk_phase=None: (setattr(kp, "_wcc", "WCC"), setattr(kp, "_r2", "R2"))
+        U_old = kp.U_opt_full.copy()
+        n0 = len(orth_calls)
+        out = kp.update(Unb, phase, localise=True, mix_ratio=0.5, mix_ratio_u=0.5)
+        A_last, T_last = orth_calls[-1]
+        stored = kp.U_opt_full
+        U.ensure("the change matrix handed to the eigen-solver is the polar factor of U_old^dagger U_new", len(eigs) == 1 and any(eigs[0][0] is a_.dot(t_) or all(_same(eigs[0][0][i, j], a_.dot(t_)[i, j]) for i in range(NW) for j in range(NW)) for a_, t_ in orth_calls[n0:-1]))
+        U.ensure("the stored gauge is orthogonalize(U_old . U_change): a polar factor, hence an isometry whatever eigenvectors the solver returned",
+                 tuple(stored.shape) == (NB, NW) and all(_same(stored[i, j], A_last.dot(T_last)[i, j]) for i in range(NB) for j in range(NW)) and tuple(A_last.shape) == (NB, NW))
+        # and what is orthogonalised is U_old times the fractional power of the change matrix, rebuilt from the solver's output
+        vals, vecs = eigs[0][1], eigs[0][2]
+        frac = rnp.exp(1j * rnp.angle(vals) * 0.5)
+        Uc = vecs.dot(rnp.diag(frac)).dot(vecs.T.conj())
+        want = U_old.dot(Uc)
+        U.ensure("U_old . (eigenvectors diag(e^{i mix angle}) eigenvectors^dagger) is what is orthogonalised", all(_same(A_last[i, j], want[i, j]) for i in range(NB) for j in range(NW)))
+    U.run(body, check_feasible=False)
+    _ext(U)
+    U.external("np.linalg.eig: eigenvalues of a unitary matrix have unit modulus; the eigenvectors returned for a repeated eigenvalue are linearly independent, not necessarily orthogonal")
+
+
 @unit("C24", "lemma: U_loc has orthonormal columns whenever the chosen eigenvectors have", scope="shape:5 bands, 1 frozen, 3 free, 2 free Wannier functions", expect_min=1)
 def _lemma(U):
     def build():
@@ -369,9 +416,16 @@ def _real_kp(rng, n):
             for loc in (False, True):
                 Uo, wcc, r2 = kp.update([u.copy() for u in Unb], phase, localise=loc, mix_ratio=1.0 if loc else 0.7)
                 stages.append(("update localise=%s" % loc, Uo.copy()))
+            # damped update of the gauge (mix_ratio_u != 1): the mixed matrix is rebuilt from the eigenvectors of a unitary matrix and must come out an isometry again
+            Unb2 = [rnp.linalg.qr(rs.randn(nb, nw) + 1j * rs.randn(nb, nw))[0] for _ in range(nnb)]
+            for ib in range(nnb):
+                Unb2[ib][~outer] = 0
+            for mu in (0.5, 0.2):
+                Uo, wcc, r2 = kp.update([u.copy() for u in Unb2], phase, localise=True, mix_ratio=mu, mix_ratio_u=mu)
+                stages.append(("update localise=True mix_ratio_u=%g" % mu, Uo.copy()))
         bad = []
         for nm, Uo in stages:
-            if abs(Uo.conj().T @ Uo - rnp.eye(nw)).max() > 1e-8:
+            if abs(Uo.conj().T @ Uo - rnp.eye(nw)).max() > 1e-9:
                 bad.append("%s: columns not orthonormal (%.1e)" % (nm, abs(Uo.conj().T @ Uo - rnp.eye(nw)).max()))
             P = Uo @ Uo.conj().T
             for f in rnp.where(frozen)[0]:
